@@ -17,12 +17,22 @@
 //! ceil(n/8)) and must see the same file<->tag relation; a second independent
 //! reader in Python (`pyref/c19.py`) re-checks the JSONL event log.
 //!
+//! Coverage-driven extension: programs also contain add-file-with-tags, re-keying, clear and reload steps (build ->
+//! serialise -> parse -> Builder::from_manifest), install manifests are also given the V2 layout, download builders
+//! are also made by the preset constructors, every third program goes through the CascFormat trait; the builders'
+//! own state queries are compared with the model before the build, and the parsed manifest additionally answers
+//! unknown-tag queries, tag mask algebra, tag-level platform / locale / name filters, statistics that are counts or
+//! size totals, priority analysis and download plans, selections by extension.
+//!
 //! Not judged: builder refusals of individual steps (recorded); empty tag
 //! lists in multi-tag queries; padding bits beyond the last file (recorded).
 
 use cascette_crypto::{ContentKey, EncodingKey};
-use cascette_formats::download::{DownloadManifest, DownloadManifestBuilder, PriorityCategory};
-use cascette_formats::install::{InstallManifest, InstallManifestBuilder, TagType};
+use cascette_formats::CascFormat;
+use cascette_formats::download::priority::DownloadPlan;
+use cascette_formats::download::tag::TagAnalysis;
+use cascette_formats::download::{DownloadManifest, DownloadManifestBuilder, DownloadTag, PriorityCategory};
+use cascette_formats::install::{InstallFileEntry, InstallHeader, InstallManifest, InstallManifestBuilder, InstallTag, TagType};
 use cascette_formats::size::{SizeManifest, SizeManifestBuilder};
 use serde_json::{Value, json};
 use std::collections::{BTreeSet, HashMap};
@@ -73,7 +83,8 @@ impl Cnt {
 
 #[derive(Clone, Copy, Debug, PartialEq, Eq)]
 enum Kind {
-    Install,
+    /// install manifest; v = 2: the built manifest is given the V2 header and per-entry file-type bytes before it is serialised
+    Install { v: u8 },
     Download { v: u8, checksums: bool, flag_size: u8, base: i8 },
     Size { v: u8, ekey_size: u8, esize_bytes: u8 },
 }
@@ -81,7 +92,8 @@ enum Kind {
 impl Kind {
     fn label(&self) -> String {
         match self {
-            Kind::Install => "install".into(),
+            Kind::Install { v: 1 } => "install".into(),
+            Kind::Install { v } => format!("install-v{v}"),
             Kind::Download { v, .. } => format!("download-v{v}"),
             Kind::Size { v, .. } => format!("size-v{v}"),
         }
@@ -89,14 +101,14 @@ impl Kind {
     /// manifest family used in violation signatures (the version is in the detail)
     fn family(&self) -> &'static str {
         match self {
-            Kind::Install => "install",
+            Kind::Install { .. } => "install",
             Kind::Download { .. } => "download",
             Kind::Size { .. } => "size",
         }
     }
     fn json(&self) -> Value {
         match self {
-            Kind::Install => json!({"kind":"install"}),
+            Kind::Install { v } => json!({"kind":"install","v":v}),
             Kind::Download { v, checksums, flag_size, base } => json!({"kind":"download","v":v,"checksums":checksums,"flag_size":flag_size,"base":base}),
             Kind::Size { v, ekey_size, esize_bytes } => json!({"kind":"size","v":v,"ekey_size":ekey_size,"esize_bytes":esize_bytes}),
         }
@@ -104,7 +116,7 @@ impl Kind {
     fn from_json(v: &Value) -> Option<Kind> {
         let g = |k: &str| v.get(k).and_then(Value::as_i64);
         Some(match v.get("kind")?.as_str()? {
-            "install" => Kind::Install,
+            "install" => Kind::Install { v: g("v").unwrap_or(1) as u8 },
             "download" => Kind::Download { v: g("v")? as u8, checksums: v.get("checksums")?.as_bool()?, flag_size: g("flag_size")? as u8, base: g("base")? as i8 },
             "size" => Kind::Size { v: g("v")? as u8, ekey_size: g("ekey_size")? as u8, esize_bytes: g("esize_bytes")? as u8 },
             _ => return None,
@@ -127,6 +139,14 @@ enum Step {
     BadAssoc { f: usize, name: String },
     BadRemoveFile { f: usize },
     BadRemoveTag { name: String },
+    /// add a file and tag it in the same call (install: add_file_with_tags; download: add_file_with_properties)
+    AddFileTagged { id: u32, size: u64, prio: i8, tags: Vec<usize> },
+    /// download only: the file at position f gets a new encoding key (= a new file id), tag membership stays
+    Rekey { f: usize, id: u32 },
+    /// builder.clear(): no files, no tags
+    Clear,
+    /// build -> serialise -> parse -> Builder::from_manifest: the program continues on the rebuilt builder
+    Reload,
 }
 
 impl Step {
@@ -142,6 +162,10 @@ impl Step {
             Step::BadAssoc { f, name } => json!(["bad-assoc", f, name]),
             Step::BadRemoveFile { f } => json!(["bad-rmfile", f]),
             Step::BadRemoveTag { name } => json!(["bad-rmtag", name]),
+            Step::AddFileTagged { id, size, prio, tags } => json!(["file+tags", id, size.to_string(), prio, tags]),
+            Step::Rekey { f, id } => json!(["rekey", f, id]),
+            Step::Clear => json!(["clear"]),
+            Step::Reload => json!(["reload"]),
         }
     }
     fn from_json(v: &Value) -> Option<Step> {
@@ -161,6 +185,10 @@ impl Step {
             "bad-assoc" => Step::BadAssoc { f: u(1)? as usize, name: s(2)? },
             "bad-rmfile" => Step::BadRemoveFile { f: u(1)? as usize },
             "bad-rmtag" => Step::BadRemoveTag { name: s(1)? },
+            "file+tags" => Step::AddFileTagged { id: u(1)? as u32, size: big(2)?, prio: p(3)?, tags: a.get(4)?.as_array()?.iter().filter_map(|x| x.as_u64().map(|x| x as usize)).collect() },
+            "rekey" => Step::Rekey { f: u(1)? as usize, id: u(2)? as u32 },
+            "clear" => Step::Clear,
+            "reload" => Step::Reload,
             _ => return None,
         })
     }
@@ -233,7 +261,25 @@ impl Model {
                 self.files[*f].size = *size;
                 self.files[*f].prio = *prio;
             }
-            Step::BadAssoc { .. } | Step::BadRemoveFile { .. } | Step::BadRemoveTag { .. } => {}
+            Step::BadAssoc { .. } | Step::BadRemoveFile { .. } | Step::BadRemoveTag { .. } | Step::Reload => {}
+            Step::AddFileTagged { id, size, prio, tags } => {
+                self.files.push(MFile { id: *id, size: *size, prio: *prio });
+                for t in tags {
+                    self.tags[*t].files.insert(*id);
+                }
+            }
+            Step::Rekey { f, id } => {
+                let old = std::mem::replace(&mut self.files[*f].id, *id);
+                for t in &mut self.tags {
+                    if t.files.remove(&old) {
+                        t.files.insert(*id);
+                    }
+                }
+            }
+            Step::Clear => {
+                self.files.clear();
+                self.tags.clear();
+            }
         }
     }
     /// membership[t][i] = file at position i carries tag t
@@ -248,7 +294,7 @@ impl Model {
 
 fn gen_size(rng: &mut Rng, kind: Kind) -> u64 {
     match kind {
-        Kind::Install => match rng.below(6) {
+        Kind::Install { .. } => match rng.below(6) {
             0 => 0,
             1 => 1,
             2 => u64::from(u32::MAX),
@@ -303,6 +349,7 @@ struct Gen<'a> {
     next_id: u32,
     next_name: u32,
     nice: Vec<&'static str>,
+    reloads: u32,
 }
 
 impl Gen<'_> {
@@ -337,10 +384,31 @@ impl Gen<'_> {
         let nf = self.model.files.len();
         let nt = self.model.tags.len();
         let is_size = matches!(self.kind, Kind::Size { .. });
+        // coverage-driven extension: reload through Builder::from_manifest, add-with-tags, re-keying
+        if !is_size && self.reloads < 2 && self.rng.chance(1, 60) {
+            self.reloads += 1;
+            self.push(Step::Reload);
+            return;
+        }
         let r = self.rng.below(100);
         match r {
             0..=11 => self.add_tag(),
-            12..=36 => self.add_file(),
+            12..=33 => self.add_file(),
+            34..=36 if nt > 0 && !is_size => {
+                self.next_id += 1;
+                let size = gen_size(self.rng, self.kind);
+                let prio = gen_prio(self.rng);
+                let k = self.rng.urange(0, nt.min(3));
+                let mut tags: Vec<usize> = (0..nt).collect();
+                self.rng.shuffle(&mut tags);
+                tags.truncate(k);
+                self.push(Step::AddFileTagged { id: self.next_id, size, prio, tags });
+            }
+            91 if nf > 0 && matches!(self.kind, Kind::Download { .. }) => {
+                let f = if self.rng.chance(1, 3) { nf - 1 } else { self.rng.usize_below(nf) };
+                self.next_id += 1;
+                self.push(Step::Rekey { f, id: self.next_id });
+            }
             37..=66 if nf > 0 && nt > 0 => {
                 let f = if self.rng.chance(1, 4) { nf - 1 } else { self.rng.usize_below(nf) };
                 let t = self.rng.usize_below(nt);
@@ -365,7 +433,7 @@ impl Gen<'_> {
                 let t = self.rng.usize_below(nt);
                 self.push(Step::RemoveTag { t });
             }
-            89..=91 if nf > 0 && matches!(self.kind, Kind::Download { .. }) => {
+            89..=90 if nf > 0 && matches!(self.kind, Kind::Download { .. }) => {
                 let f = self.rng.usize_below(nf);
                 let size = gen_size(self.rng, self.kind);
                 let prio = gen_prio(self.rng);
@@ -399,11 +467,17 @@ struct Program {
 
 /// `n` = exact final file count, `t` = exact final tag count.
 fn gen_program(rng: &mut Rng, kind: Kind, n: usize, t: usize) -> Program {
-    let mut g = Gen { rng, kind, model: Model::default(), steps: Vec::new(), next_id: 0, next_name: 0, nice: NICE_NAMES.to_vec() };
+    let mut g = Gen { rng, kind, model: Model::default(), steps: Vec::new(), next_id: 0, next_name: 0, nice: NICE_NAMES.to_vec(), reloads: 0 };
     let is_size = matches!(kind, Kind::Size { .. });
     let body = g.rng.urange(5, 120);
     let removal_ok = g.rng.chance(3, 4);
-    for _ in 0..body {
+    // a few programs drop everything once, somewhere in their first half, and go on from the empty builder
+    let clear_at = if !is_size && removal_ok && g.rng.chance(1, 16) { Some(g.rng.urange(1, body / 2 + 1)) } else { None };
+    for bi in 0..body {
+        if clear_at == Some(bi) {
+            g.push(Step::Clear);
+            continue;
+        }
         // size manifests have no removal: do not overshoot the targets
         if is_size && (g.model.files.len() >= n || g.model.tags.len() >= t) {
             let nf = g.model.files.len();
@@ -544,7 +618,7 @@ fn decode(kind: Kind, b: &[u8]) -> Result<Decoded, String> {
     let mut c = Cur { b, p: 0 };
     let mut d = Decoded::default();
     match kind {
-        Kind::Install => {
+        Kind::Install { .. } => {
             if c.take(2)? != b"IN" {
                 return Err("magic".into());
             }
@@ -629,6 +703,35 @@ fn mask_files(mask: &[u8], n: usize) -> Vec<usize> {
 // running one program
 // ---------------------------------------------------------------------------
 
+type StageErr = (&'static str, String, String);
+
+fn reload_install(x: InstallManifestBuilder, kind: Kind, v2_applied: &mut bool) -> Result<InstallManifestBuilder, StageErr> {
+    let mut m = x.build().map_err(|e| ("builder.build-refused-accepted-program", err_class(&e), e.to_string()))?;
+    if matches!(kind, Kind::Install { v: 2 }) && !*v2_applied {
+        to_install_v2(&mut m);
+        *v2_applied = true;
+    }
+    let bytes = m.build().map_err(|e| ("serialise-failed", err_class(&e), e.to_string()))?;
+    let p = InstallManifest::parse(&bytes).map_err(|e| ("parse-of-own-output-failed", err_class(&e), e.to_string()))?;
+    Ok(InstallManifestBuilder::from_manifest(&p))
+}
+
+fn reload_download(x: DownloadManifestBuilder) -> Result<DownloadManifestBuilder, StageErr> {
+    let m = x.build().map_err(|e| ("builder.build-refused-accepted-program", err_class(&e), e.to_string()))?;
+    let bytes = m.build().map_err(|e| ("serialise-failed", err_class(&e), e.to_string()))?;
+    let p = DownloadManifest::parse(&bytes).map_err(|e| ("parse-of-own-output-failed", err_class(&e), e.to_string()))?;
+    Ok(DownloadManifestBuilder::from_manifest(&p))
+}
+
+/// Give a builder-made (V1) install manifest the V2 layout: 16-byte header with the extra fields and a file-type
+/// byte in every entry. Tags and their masks are untouched.
+fn to_install_v2(m: &mut InstallManifest) {
+    m.header = InstallHeader::new_v2(m.header.tag_count, m.header.entry_count, 20, m.header.entry_count);
+    for (i, e) in m.entries.iter_mut().enumerate() {
+        *e = InstallFileEntry::new_v2(e.path.clone(), e.content_key, e.file_size, (i % 251) as u8);
+    }
+}
+
 struct RunCtx<'a> {
     ctx: &'a Ctx,
     cnt: &'a mut Cnt,
@@ -637,7 +740,7 @@ struct RunCtx<'a> {
 }
 
 fn removal_class(steps: &[Step]) -> &'static str {
-    if steps.iter().any(|s| matches!(s, Step::RemoveFile { .. })) {
+    if steps.iter().any(|s| matches!(s, Step::RemoveFile { .. } | Step::Clear)) {
         "program-with-remove_file"
     } else if steps.iter().any(|s| matches!(s, Step::RemoveTag { .. })) {
         "program-with-remove_tag"
@@ -671,9 +774,23 @@ fn run_program(rc: &mut RunCtx, kind: Kind, steps: &[Step], rng: &mut Rng) {
         S(SizeManifestBuilder),
     }
     let b0 = match kind {
-        Kind::Install => B::I(InstallManifestBuilder::new()),
+        Kind::Install { .. } => B::I(if steps.len() % 2 == 0 { InstallManifestBuilder::new() } else { InstallManifestBuilder::default() }),
         Kind::Download { v, checksums, flag_size, base } => {
-            let r = DownloadManifestBuilder::new(v).map(|b| b.with_checksums(checksums)).and_then(|b| b.with_flags(flag_size)).and_then(|b| b.with_base_priority(base));
+            // alternative constructors: the presets must behave like new(v) + with_flags + with_base_priority
+            let preset = steps.len() % 2 == 1;
+            let r = if preset {
+                rc.cnt.add("builder.download_preset_constructors", 1);
+                match (v, flag_size, base) {
+                    (1, _, _) => DownloadManifestBuilder::basic(),
+                    (2, f, _) => DownloadManifestBuilder::with_flags_support(f),
+                    (_, 0, -10) => DownloadManifestBuilder::essential_content(),
+                    (_, 1, -5) => DownloadManifestBuilder::streaming_optimized(),
+                    (_, f, b) => DownloadManifestBuilder::full_featured(f, b),
+                }
+                .map(|b| b.with_checksums(checksums))
+            } else {
+                DownloadManifestBuilder::new(v).map(|b| b.with_checksums(checksums)).and_then(|b| b.with_flags(flag_size)).and_then(|b| b.with_base_priority(base))
+            };
             match r {
                 Ok(b) => B::D(b),
                 Err(e) => {
@@ -686,6 +803,8 @@ fn run_program(rc: &mut RunCtx, kind: Kind, steps: &[Step], rng: &mut Rng) {
     };
     let mut b: Option<B> = Some(b0);
     let mut refused_valid: Option<String> = None;
+    // install V2: the V2 layout is given to the first manifest that is serialised (at a reload or at the end)
+    let mut v2_applied = false;
     for (si, s) in steps.iter().enumerate() {
         rc.cnt.add(
             match s {
@@ -697,6 +816,10 @@ fn run_program(rc: &mut RunCtx, kind: Kind, steps: &[Step], rng: &mut Rng) {
                 Step::RemoveTag { .. } => "step.remove_tag",
                 Step::Update { .. } => "step.update_size_priority",
                 Step::BadAssoc { .. } | Step::BadRemoveFile { .. } | Step::BadRemoveTag { .. } => "step.invalid(expected refusal)",
+                Step::AddFileTagged { .. } => "step.add_file_with_tags",
+                Step::Rekey { .. } => "step.update_file_key",
+                Step::Clear => "step.clear",
+                Step::Reload => "step.reload(from_manifest)",
             },
             1,
         );
@@ -746,7 +869,18 @@ fn run_program(rc: &mut RunCtx, kind: Kind, steps: &[Step], rng: &mut Rng) {
             },
             (B::I(x), Step::BadAssoc { f, name }) => {
                 let snap = x.snapshot();
-                match x.associate_file_with_tag(*f, name) {
+                // a position past the last file must be refused by every association entry point
+                let r = if *f >= model.files.len() {
+                    match f % 4 {
+                        0 => x.associate_file_with_tag_by_index(*f, 0),
+                        1 => x.remove_file_from_tag(*f, name),
+                        2 if model.files.is_empty() => x.associate_last_file_with_tag(name),
+                        _ => x.associate_file_with_tag(*f, name),
+                    }
+                } else {
+                    x.associate_file_with_tag(*f, name)
+                };
+                match r {
                     Ok(_) => {
                         rc.cnt.add("builder.accepted_an_invalid_step(observation)", 1);
                         return;
@@ -790,11 +924,17 @@ fn run_program(rc: &mut RunCtx, kind: Kind, steps: &[Step], rng: &mut Rng) {
                 let idx = model.files.len();
                 let Kind::Download { checksums, flag_size, .. } = kind else { unreachable!() };
                 let mut r = x.add_file(EncodingKey::from_bytes(key16(*id)), *size, *prio);
-                if checksums {
-                    r = r.and_then(|x| x.set_file_checksum(idx, *id ^ 0xa5a5_a5a5));
-                }
-                if flag_size > 0 && id % 2 == 0 {
-                    r = r.and_then(|x| x.set_file_flags(idx, vec![*id as u8; flag_size as usize]));
+                if id % 3 == 0 {
+                    // the combined setter must do what the two single setters do
+                    let flags = (flag_size > 0 && id % 2 == 0).then(|| vec![*id as u8; flag_size as usize]);
+                    r = r.and_then(|x| x.configure_file(idx, checksums.then_some(*id ^ 0xa5a5_a5a5), flags));
+                } else {
+                    if checksums {
+                        r = r.and_then(|x| x.set_file_checksum(idx, *id ^ 0xa5a5_a5a5));
+                    }
+                    if flag_size > 0 && id % 2 == 0 {
+                        r = r.and_then(|x| x.set_file_flags(idx, vec![*id as u8; flag_size as usize]));
+                    }
                 }
                 match r {
                     Ok(x) => B::D(x),
@@ -837,7 +977,13 @@ fn run_program(rc: &mut RunCtx, kind: Kind, steps: &[Step], rng: &mut Rng) {
                 B::D(x)
             }
             (B::D(mut x), Step::Update { f, size, prio }) => {
-                if x.update_file_size(*f, *size).is_err() || !x.update_file_priority(*f, *prio) {
+                let prio_ok = if prio % 2 == 0 {
+                    // in-place edit through the mutable accessor
+                    x.get_file_mut(*f).map(|e| e.priority = *prio).is_some()
+                } else {
+                    x.update_file_priority(*f, *prio)
+                };
+                if x.update_file_size(*f, *size).is_err() || !prio_ok {
                     refused_valid = Some("update refused".into());
                     break;
                 }
@@ -872,6 +1018,59 @@ fn run_program(rc: &mut RunCtx, kind: Kind, steps: &[Step], rng: &mut Rng) {
                 rc.cnt.add("builder.refusals_of_invalid_steps", 1);
                 B::D(x)
             }
+            // ---------------- coverage-driven extension: tagged add, re-key, clear, reload ----------------
+            (B::I(x), Step::AddFileTagged { id, size, tags, .. }) => {
+                let names: Vec<String> = tags.iter().map(|t| tname(*t)).collect();
+                let refs: Vec<&str> = names.iter().map(String::as_str).collect();
+                match x.add_file_with_tags(path_of(*id), ContentKey::from_bytes(key16(*id)), *size as u32, &refs) {
+                    Ok(x) => B::I(x),
+                    Err(e) => {
+                        refused_valid = Some(format!("add_file_with_tags: {e}"));
+                        break;
+                    }
+                }
+            }
+            (B::D(x), Step::AddFileTagged { id, size, prio, tags }) => {
+                let Kind::Download { checksums, flag_size, .. } = kind else { unreachable!() };
+                let names: Vec<String> = tags.iter().map(|t| tname(*t)).collect();
+                let refs: Vec<&str> = names.iter().map(String::as_str).collect();
+                let flags = (flag_size > 0 && id % 2 == 0).then(|| vec![*id as u8; flag_size as usize]);
+                let tag_arg: Option<&[&str]> = if refs.is_empty() && id % 2 == 0 { None } else { Some(&refs) };
+                match x.add_file_with_properties(EncodingKey::from_bytes(key16(*id)), *size, *prio, checksums.then_some(*id ^ 0xa5a5_a5a5), flags, tag_arg) {
+                    Ok(x) => B::D(x),
+                    Err(e) => {
+                        refused_valid = Some(format!("add_file_with_properties: {e}"));
+                        break;
+                    }
+                }
+            }
+            (B::D(mut x), Step::Rekey { f, id }) => {
+                if !x.update_file_key(*f, EncodingKey::from_bytes(key16(*id))) {
+                    refused_valid = Some("update_file_key returned false".into());
+                    break;
+                }
+                B::D(x)
+            }
+            (B::I(x), Step::Rekey { .. }) => B::I(x),
+            (B::I(x), Step::Clear) => B::I(x.clear()),
+            (B::D(mut x), Step::Clear) => {
+                x.clear();
+                B::D(x)
+            }
+            (B::I(x), Step::Reload) => match reload_install(x, kind, &mut v2_applied) {
+                Ok(nb) => B::I(nb),
+                Err((stage, cls, msg)) => {
+                    ctx.violation(&format!("C19|{fam}|reload.{stage}|{cls}|{rclass}"), "a manifest assembled from accepted builder steps could not be built / serialised / re-parsed at a reload point", json!({"program": detail(), "error": msg, "at_step": si}));
+                    return;
+                }
+            },
+            (B::D(x), Step::Reload) => match reload_download(x) {
+                Ok(nb) => B::D(nb),
+                Err((stage, cls, msg)) => {
+                    ctx.violation(&format!("C19|{fam}|reload.{stage}|{cls}|{rclass}"), "a manifest assembled from accepted builder steps could not be built / serialised / re-parsed at a reload point", json!({"program": detail(), "error": msg, "at_step": si}));
+                    return;
+                }
+            },
             // ---------------- size ----------------
             (B::S(x), Step::AddTag { name, ttype }) => B::S(x.add_tag(name.clone(), ttype_of(*ttype))),
             (B::S(x), Step::AddFile { id, size, .. }) => {
@@ -912,19 +1111,115 @@ fn run_program(rc: &mut RunCtx, kind: Kind, steps: &[Step], rng: &mut Rng) {
         }};
     }
     let Some(b) = b else { return };
+    // every third program goes through the trait entry points instead of the inherent build / parse
+    let casc_format = steps.len() % 3 == 0;
+
+    // ---- coverage-driven extension: what the builder itself reports must be the model --------------------------
+    {
+        let bs_bad = |api: &str, got: Value, want: Value| {
+            ctx.violation(&format!("C19|{fam}|builder-state.{api}|differs-from-set-model|{cond}"), "a query of the builder (before build) differs from the set model of the builder program", json!({"program": detail(), "files": n, "tags": nt, "got": got, "want": want}));
+        };
+        let mut names_sorted: Vec<String> = model.tags.iter().map(|t| t.name.clone()).collect();
+        names_sorted.sort();
+        let total: u64 = model.files.iter().map(|f| f.size).sum();
+        match &b {
+            B::I(x) => {
+                if x.file_count() != n || x.tag_count() != nt || x.total_size() != total {
+                    bs_bad("file_count/tag_count/total_size", json!([x.file_count(), x.tag_count(), x.total_size()]), json!([n, nt, total]));
+                    return;
+                }
+                let mut got: Vec<String> = x.tag_names().into_iter().cloned().collect();
+                got.sort();
+                if got != names_sorted || model.tags.iter().any(|t| !x.has_tag(&t.name)) || x.has_tag("no-such-tag") {
+                    bs_bad("tag_names/has_tag", json!(got), json!(names_sorted));
+                    return;
+                }
+                rc.cnt.add("builder_state.install_probes", 1);
+            }
+            B::D(x) => {
+                let Kind::Download { v, checksums, flag_size, base } = kind else { unreachable!() };
+                let cfg = x.config_summary();
+                let min_v = if base != 0 { 3 } else if flag_size > 0 { 2 } else { 1 };
+                if x.entry_count() != n || x.tag_count() != nt || cfg.entry_count != n || cfg.tag_count != nt || cfg.version != v || cfg.has_checksum != checksums || cfg.flag_size != flag_size || cfg.base_priority != base || !cfg.is_valid_for_version(v) || cfg.minimum_version_required() != min_v {
+                    bs_bad("entry_count/tag_count/config_summary", json!(format!("{cfg:?}")), json!([n, nt, v, checksums, flag_size, base, min_v]));
+                    return;
+                }
+                let mut got: Vec<String> = x.tag_names().into_iter().map(str::to_string).collect();
+                got.sort();
+                if got != names_sorted || model.tags.iter().any(|t| !x.has_tag(&t.name)) || x.has_tag("no-such-tag") {
+                    bs_bad("tag_names/has_tag", json!(got), json!(names_sorted));
+                    return;
+                }
+                for (t, tag) in model.tags.iter().enumerate() {
+                    let got = x.get_files_for_tag(&tag.name);
+                    if got.as_deref() != Some(&set_of(t)[..]) {
+                        bs_bad("get_files_for_tag", json!(got), json!(set_of(t)));
+                        return;
+                    }
+                }
+                if x.get_files_for_tag("no-such-tag").is_some() {
+                    bs_bad("get_files_for_tag", json!("Some"), json!("None for an unknown tag"));
+                    return;
+                }
+                let mut pos: Vec<usize> = if n == 0 { Vec::new() } else { vec![0, n - 1, n / 2] };
+                for _ in 0..6.min(n) {
+                    pos.push(rng.usize_below(n));
+                }
+                for i in pos {
+                    let want_tags: Vec<&str> = (0..nt).filter(|&t| member[t][i]).map(|t| model.tags[t].name.as_str()).collect();
+                    let key = EncodingKey::from_bytes(key16(model.files[i].id));
+                    let f = x.get_file(i);
+                    let f_ok = f.is_some_and(|e| e.encoding_key == key && e.file_size.as_u64() == model.files[i].size && e.priority == model.files[i].prio);
+                    if x.get_tags_for_file(i) != want_tags || !x.has_file(&key) || x.find_file_index(&key) != Some(i) || !f_ok {
+                        bs_bad("get_tags_for_file/has_file/find_file_index/get_file", json!({"index": i, "tags": x.get_tags_for_file(i), "find_file_index": x.find_file_index(&key), "has_file": x.has_file(&key), "get_file_matches": f_ok}), json!({"tags": want_tags}));
+                        return;
+                    }
+                }
+                let absent = EncodingKey::from_bytes(key16(0xffff_fff0));
+                if x.has_file(&absent) || x.find_file_index(&absent).is_some() || x.get_file(n).is_some() || !x.get_tags_for_file(n + 8).is_empty() {
+                    bs_bad("has_file/find_file_index/get_file(absent)", json!("found"), json!("nothing for an absent key / index"));
+                    return;
+                }
+                // operations aimed past the last file / at an absent key change nothing and say so
+                let mut y = x.clone_builder();
+                let refused = !y.remove_file_by_key(&absent) && !y.update_file_key(n, absent) && !y.update_file_priority(n, 1) && y.update_file_size(n, 1).is_err() && y.get_file_mut(n).is_none() && !y.remove_file(n);
+                let same = y.entry_count() == n && y.tag_count() == nt && (0..nt).all(|t| y.get_files_for_tag(&model.tags[t].name).as_deref() == Some(&set_of(t)[..]));
+                if !refused || !same || cfg.is_valid_for_version(0) || cfg.is_valid_for_version(4) {
+                    bs_bad("out-of-range remove/update", json!({"refused": refused, "state_unchanged": same}), json!({"refused": true, "state_unchanged": true}));
+                    return;
+                }
+                rc.cnt.add("builder_state.download_probes", 1);
+            }
+            B::S(_) => {}
+        }
+    }
     let (bytes, parsed) = match b {
         B::I(x) => {
-            let m = match x.build() {
+            let mut m = match x.build() {
                 Ok(m) => m,
                 Err(e) => stage_fail!("builder.build-refused-accepted-program", e),
             };
-            let bytes = match m.build() {
-                Ok(b) => b,
-                Err(e) => stage_fail!("serialise-failed", e),
-            };
-            match InstallManifest::parse(&bytes) {
-                Ok(p) => (bytes, P::I(p)),
-                Err(e) => stage_fail!("parse-of-own-output-failed", e),
+            if matches!(kind, Kind::Install { v: 2 }) && !v2_applied {
+                to_install_v2(&mut m);
+            }
+            if casc_format {
+                let bytes = match <InstallManifest as CascFormat>::build(&m) {
+                    Ok(b) => b,
+                    Err(e) => stage_fail!("serialise-failed", e),
+                };
+                match <InstallManifest as CascFormat>::parse(&bytes) {
+                    Ok(p) => (bytes, P::I(p)),
+                    Err(e) => stage_fail!("parse-of-own-output-failed", e),
+                }
+            } else {
+                let bytes = match m.build() {
+                    Ok(b) => b,
+                    Err(e) => stage_fail!("serialise-failed", e),
+                };
+                match InstallManifest::parse(&bytes) {
+                    Ok(p) => (bytes, P::I(p)),
+                    Err(e) => stage_fail!("parse-of-own-output-failed", e),
+                }
             }
         }
         B::D(x) => {
@@ -932,13 +1227,24 @@ fn run_program(rc: &mut RunCtx, kind: Kind, steps: &[Step], rng: &mut Rng) {
                 Ok(m) => m,
                 Err(e) => stage_fail!("builder.build-refused-accepted-program", e),
             };
-            let bytes = match m.build() {
-                Ok(b) => b,
-                Err(e) => stage_fail!("serialise-failed", e),
-            };
-            match DownloadManifest::parse(&bytes) {
-                Ok(p) => (bytes, P::D(p)),
-                Err(e) => stage_fail!("parse-of-own-output-failed", e),
+            if casc_format {
+                let bytes = match <DownloadManifest as CascFormat>::build(&m) {
+                    Ok(b) => b,
+                    Err(e) => stage_fail!("serialise-failed", e),
+                };
+                match <DownloadManifest as CascFormat>::parse(&bytes) {
+                    Ok(p) => (bytes, P::D(p)),
+                    Err(e) => stage_fail!("parse-of-own-output-failed", e),
+                }
+            } else {
+                let bytes = match m.build() {
+                    Ok(b) => b,
+                    Err(e) => stage_fail!("serialise-failed", e),
+                };
+                match DownloadManifest::parse(&bytes) {
+                    Ok(p) => (bytes, P::D(p)),
+                    Err(e) => stage_fail!("parse-of-own-output-failed", e),
+                }
             }
         }
         B::S(x) => {
@@ -946,16 +1252,30 @@ fn run_program(rc: &mut RunCtx, kind: Kind, steps: &[Step], rng: &mut Rng) {
                 Ok(m) => m,
                 Err(e) => stage_fail!("builder.build-refused-accepted-program", e),
             };
-            let bytes = match m.build() {
-                Ok(b) => b,
-                Err(e) => stage_fail!("serialise-failed", e),
-            };
-            match SizeManifest::parse(&bytes) {
-                Ok(p) => (bytes, P::S(p)),
-                Err(e) => stage_fail!("parse-of-own-output-failed", e),
+            if casc_format {
+                let bytes = match <SizeManifest as CascFormat>::build(&m) {
+                    Ok(b) => b,
+                    Err(e) => stage_fail!("serialise-failed", e),
+                };
+                match <SizeManifest as CascFormat>::parse(&bytes) {
+                    Ok(p) => (bytes, P::S(p)),
+                    Err(e) => stage_fail!("parse-of-own-output-failed", e),
+                }
+            } else {
+                let bytes = match m.build() {
+                    Ok(b) => b,
+                    Err(e) => stage_fail!("serialise-failed", e),
+                };
+                match SizeManifest::parse(&bytes) {
+                    Ok(p) => (bytes, P::S(p)),
+                    Err(e) => stage_fail!("parse-of-own-output-failed", e),
+                }
             }
         }
     };
+    if casc_format {
+        rc.cnt.add("programs.through_CascFormat_build+parse", 1);
+    }
 
     // ---- evidence bookkeeping ----------------------------------------------------
     let h = mix64(fnv64(label.as_bytes()), fnv64(&bytes));
@@ -1069,6 +1389,121 @@ fn run_program(rc: &mut RunCtx, kind: Kind, steps: &[Step], rng: &mut Rng) {
                 return;
             }
             qcount += 1;
+            // ---- coverage-driven extension -------------------------------------------------------------------
+            // a tag that does not exist has no files: alone -> nothing, in an all-of -> nothing, in an any-of -> no effect
+            {
+                let ghost = "no-such-tag";
+                let mut ok = m.get_files_for_tag(ghost).is_empty() && m.get_files_for_any_tag(&[ghost]).is_empty() && m.get_files_for_tags(&[ghost]).is_empty() && m.calculate_install_size(&[ghost]) == 0;
+                if nt > 0 {
+                    let t0 = rng.usize_below(nt);
+                    let name = model.tags[t0].name.as_str();
+                    let any: Vec<usize> = m.get_files_for_any_tag(&[name, ghost]).into_iter().map(|(i, _)| i).collect();
+                    ok &= m.get_files_for_tags(&[name, ghost]).is_empty() && m.calculate_install_size(&[ghost, name]) == 0 && any == set_of(t0);
+                }
+                qcount += 5;
+                if !ok {
+                    bad("queries-with-unknown-tag", json!("files selected / any-of changed"), json!("an unknown tag selects nothing"), json!(null));
+                    return;
+                }
+            }
+            // mask algebra: intersect = all-of, union = any-of, decoded MSB-first over the n files
+            for s in subsets.iter().filter(|s| s.len() == 2).take(60) {
+                let (Some(ta), Some(tb)) = (m.find_tag(&model.tags[s[0]].name), m.find_tag(&model.tags[s[1]].name)) else { continue };
+                let inter = mask_files(&ta.intersect(tb), n);
+                let uni = mask_files(&ta.union(tb), n);
+                qcount += 2;
+                if inter != all_of(s) || mask_files(&tb.intersect(ta), n) != all_of(s) {
+                    bad("tag.intersect", json!(inter), json!(all_of(s)), json!({"tags": [&ta.name, &tb.name]}));
+                    return;
+                }
+                if uni != any_of(s) || mask_files(&tb.union(ta), n) != any_of(s) {
+                    bad("tag.union", json!(uni), json!(any_of(s)), json!({"tags": [&ta.name, &tb.name]}));
+                    return;
+                }
+            }
+            for (t, tag) in model.tags.iter().enumerate() {
+                let Some(pt) = m.find_tag(&tag.name) else { continue };
+                if pt.is_platform_tag() != (tag.ttype == TagType::Platform as u16) {
+                    bad("tag.is_platform_tag", json!(pt.is_platform_tag()), json!(tag.ttype == 1), json!({"tag": tag.name}));
+                    return;
+                }
+                // positions beyond the mask: never a member, clearing them changes nothing, setting one grows the mask
+                // without touching the membership of the n files
+                if t < 3 {
+                    let beyond = pt.bit_mask.len() * 8 + [0usize, 1, 7, 8, 1000][t % 5];
+                    let mut c: InstallTag = pt.clone();
+                    let before = c.clone();
+                    c.remove_file(beyond);
+                    let unchanged = c == before && !c.has_file(beyond);
+                    c.add_file(beyond);
+                    let grown = c.has_file(beyond) && c.get_files(n) == set_of(t) && c.file_count() == set_of(t).len() + 1;
+                    c.remove_file(beyond);
+                    let cleared = !c.has_file(beyond) && c.get_files(n) == set_of(t);
+                    qcount += 3;
+                    if !unchanged || !grown || !cleared {
+                        bad("tag.has_file/add_file/remove_file(beyond-mask)", json!([unchanged, grown, cleared]), json!([true, true, true]), json!({"tag": tag.name, "position": beyond}));
+                        return;
+                    }
+                }
+            }
+            // editing a tag of the parsed manifest in place (find_tag_mut) changes exactly that membership
+            if n > 0 && nt > 0 {
+                let t0 = rng.usize_below(nt);
+                let i0 = if rng.bool() { n - 1 } else { rng.usize_below(n) };
+                let mut mm = m.clone();
+                let name = model.tags[t0].name.clone();
+                let mut want = set_of(t0);
+                if let Some(tag) = mm.find_tag_mut(&name) {
+                    if member[t0][i0] {
+                        tag.remove_file(i0);
+                        want.retain(|&x| x != i0);
+                    } else {
+                        tag.add_file(i0);
+                        want.push(i0);
+                        want.sort_unstable();
+                    }
+                }
+                let got: Vec<usize> = mm.get_files_for_tag(&name).into_iter().map(|(i, _)| i).collect();
+                let other = (t0 + 1) % nt;
+                let got_other: Vec<usize> = mm.get_files_for_tag(&model.tags[other].name).into_iter().map(|(i, _)| i).collect();
+                qcount += 2;
+                if got != want || (other != t0 && got_other != set_of(other)) || mm.find_tag_mut("no-such-tag").is_some() {
+                    bad("find_tag_mut+add_file/remove_file", json!(got), json!(want), json!({"tag": name, "file": i0}));
+                    return;
+                }
+            }
+            let st = m.stats();
+            if st.total_files != n || st.total_tags != nt || st.total_size != total {
+                bad("stats.total_files/total_tags/total_size", json!([st.total_files, st.total_tags, st.total_size]), json!([n, nt, total]), json!(null));
+                return;
+            }
+            rc.cnt.add(if st.tagged_files == any_of(&(0..nt).collect::<Vec<_>>()).len() { "install.stats.tagged_files=files-with-a-tag(observation)" } else { "install.stats.tagged_files=largest-tag(observation)" }, 1);
+            // selections by path: the three path shapes of the workload have unambiguous extensions
+            for (ext, rem) in [("bin", 0u32), ("BLP", 1), ("txt", 2)] {
+                let want: Vec<usize> = (0..n).filter(|&i| model.files[i].id % 3 == rem).collect();
+                let got: Vec<(usize, &[u8; 16])> = m.get_files_by_extension(ext).into_iter().map(|(i, e)| (i, e.content_key.as_bytes())).collect();
+                let got_glob: Vec<usize> = m.find_files(&format!("*.{ext}")).into_iter().map(|(i, _)| i).collect();
+                qcount += 2;
+                if idx_of(&got) != want || !keys_ok(&got) {
+                    bad("get_files_by_extension", json!(idx_of(&got)), json!(want), json!({"extension": ext}));
+                    return;
+                }
+                if got_glob != want {
+                    bad("find_files(*.ext)", json!(got_glob), json!(want), json!({"extension": ext}));
+                    return;
+                }
+            }
+            let mut want_ext: Vec<&str> = Vec::new();
+            for (ext, rem) in [("bin", 0u32), ("blp", 1), ("txt", 2)] {
+                if model.files.iter().any(|f| f.id % 3 == rem) {
+                    want_ext.push(ext);
+                }
+            }
+            if m.get_extensions() != want_ext {
+                bad("get_extensions", json!(m.get_extensions()), json!(want_ext), json!(null));
+                return;
+            }
+            rc.cnt.add("install.extension_queries", 1);
         }
         P::D(m) => {
             if m.entries.len() != n || m.tags.len() != nt {
@@ -1167,6 +1602,200 @@ fn run_program(rc: &mut RunCtx, kind: Kind, steps: &[Step], rng: &mut Rng) {
                 return;
             }
             qcount += 2;
+            // ---- coverage-driven extension -------------------------------------------------------------------
+            {
+                let ghost = "no-such-tag";
+                let mut ok = m.entries_by_tag(ghost).is_empty() && m.entries_by_tags(&[ghost]).is_empty() && m.calculate_size_for_tags(&[ghost]) == 0;
+                if nt > 0 {
+                    let name = model.tags[rng.usize_below(nt)].name.as_str();
+                    ok &= m.entries_by_tags(&[name, ghost]).is_empty() && m.calculate_size_for_tags(&[ghost, name]) == 0 && m.entries_for_platform(name, ghost).is_empty();
+                }
+                qcount += 4;
+                if !ok {
+                    bad("queries-with-unknown-tag", json!("entries selected"), json!("an unknown tag selects nothing"), json!(null));
+                    return;
+                }
+                // the empty tag list is left open by the statement: recorded only
+                rc.cnt.add(if m.entries_by_tags(&[]).len() == n { "download.entries_by_tags(empty-list)=all-entries(observation)" } else { "download.entries_by_tags(empty-list)=other(observation)" }, 1);
+            }
+            let Kind::Download { checksums, flag_size, .. } = kind else { unreachable!() };
+            let hdr_base: i8 = if v >= 3 { base } else { 0 };
+            // tag lookup and the tag-level filters
+            let names: Vec<&str> = model.tags.iter().map(|t| t.name.as_str()).collect();
+            if m.tag_names() != names || m.find_tag("no-such-tag").is_some() {
+                bad("tag_names/find_tag", json!(m.tag_names()), json!(names), json!(null));
+                return;
+            }
+            let platform_names: Vec<&str> = model.tags.iter().filter(|t| t.ttype == TagType::Platform as u16).map(|t| t.name.as_str()).chain(["no-such-platform"]).take(3).collect();
+            let arch_names: Vec<&str> = model.tags.iter().filter(|t| t.ttype == TagType::Architecture as u16).map(|t| t.name.as_str()).chain(["no-such-arch"]).take(3).collect();
+            let locale_names: Vec<&str> = model.tags.iter().filter(|t| t.ttype == TagType::Locale as u16).map(|t| t.name.as_str()).chain(["xxXX"]).take(3).collect();
+            let region_names: Vec<Option<&str>> = model.tags.iter().filter(|t| t.ttype == TagType::Region as u16).map(|t| Some(t.name.as_str())).chain([None, Some("no-such-region")]).take(3).collect();
+            let mut custom_filter: Vec<String> = model.tags.iter().step_by(2).map(|t| t.name.clone()).collect();
+            custom_filter.push("Mac".to_string());
+            for tag in &model.tags {
+                let Some(pt) = m.find_tag(&tag.name) else {
+                    bad("find_tag", json!(null), json!(tag.name), json!(null));
+                    return;
+                };
+                let ty = tag.ttype;
+                if pt.name != tag.name || pt.tag_type as u16 != ty {
+                    bad("find_tag", json!([&pt.name, pt.tag_type as u16]), json!([&tag.name, ty]), json!(null));
+                    return;
+                }
+                for p in &platform_names {
+                    for a in &arch_names {
+                        let want = if ty == TagType::Platform as u16 { tag.name == *p } else if ty == TagType::Architecture as u16 { tag.name == *a } else { true };
+                        qcount += 1;
+                        if pt.matches_platform(p, a) != want {
+                            bad("tag.matches_platform", json!(!want), json!(want), json!({"tag": tag.name, "type": ty, "platform": p, "architecture": a}));
+                            return;
+                        }
+                    }
+                }
+                for l in &locale_names {
+                    for r in &region_names {
+                        let want = if ty == TagType::Locale as u16 { tag.name == *l } else if ty == TagType::Region as u16 { r.is_none_or(|r| tag.name == r) } else { true };
+                        qcount += 1;
+                        if pt.matches_locale(l, *r) != want {
+                            bad("tag.matches_locale", json!(!want), json!(want), json!({"tag": tag.name, "type": ty, "locale": l, "region": r}));
+                            return;
+                        }
+                    }
+                }
+                for filter in [&custom_filter, &DownloadTag::create_platform_filter(), &DownloadTag::create_architecture_filter(), &DownloadTag::create_locale_filter()] {
+                    qcount += 1;
+                    if pt.matches_filter(filter) != filter.contains(&tag.name) {
+                        bad("tag.matches_filter", json!(pt.matches_filter(filter)), json!(filter.contains(&tag.name)), json!({"tag": tag.name, "filter": filter}));
+                        return;
+                    }
+                }
+            }
+            // the tag selections of the manifest and the batch analysis agree with the single-tag predicates
+            let sel_names = |v: Vec<&DownloadTag>| -> Vec<String> { v.into_iter().map(|t| t.name.clone()).collect() };
+            let by_pred = |f: &dyn Fn(&DownloadTag) -> bool| -> Vec<String> { m.tags.iter().filter(|t| f(t)).map(|t| t.name.clone()).collect() };
+            let an = TagAnalysis::analyze(&m.tags);
+            let counts_ok = an.total_tags == nt
+                && an.platform_tags == by_pred(&|t| t.is_platform_specific()).len()
+                && an.locale_tags == by_pred(&|t| t.is_locale_specific()).len()
+                && an.optional_tags == by_pred(&|t| t.is_optional()).len()
+                && an.required_tags == by_pred(&|t| t.is_required()).len()
+                && an.streamable_tags == by_pred(&|t| t.is_streamable()).len();
+            qcount += 3;
+            if sel_names(m.platform_tags()) != by_pred(&|t| t.is_platform_specific()) || sel_names(m.optional_tags()) != by_pred(&|t| t.is_optional()) || !counts_ok || m.supports_streaming() != (an.streamable_tags > 0) {
+                bad("platform_tags/optional_tags/TagAnalysis(batch-vs-single-predicate)", json!([sel_names(m.platform_tags()), sel_names(m.optional_tags())]), json!([by_pred(&|t| t.is_platform_specific()), by_pred(&|t| t.is_optional())]), json!(null));
+                return;
+            }
+            // a Platform tag is platform specific, an Option tag is optional (the two classes the statement's filters name)
+            for tag in &model.tags {
+                let Some(pt) = m.find_tag(&tag.name) else { continue };
+                if (tag.ttype == TagType::Platform as u16 || tag.ttype == TagType::Architecture as u16) && !pt.is_platform_specific() || tag.ttype == TagType::Option as u16 && !pt.is_optional() {
+                    bad("tag.is_platform_specific/is_optional", json!(false), json!(true), json!({"tag": tag.name, "type": tag.ttype}));
+                    return;
+                }
+            }
+            // statistics that are size totals / counts over the entries
+            let st = m.stats();
+            let large = model.files.iter().filter(|f| f.size > u64::from(u32::MAX)).count();
+            if st.version != v || st.entry_count != n || st.tag_count != nt || st.total_size != total || st.large_file_count != large || st.has_checksums != checksums || st.has_flags != (flag_size > 0) || st.base_priority != hdr_base {
+                bad("stats", json!(format!("{st:?}")), json!([v, n, nt, total.to_string(), large, checksums, flag_size > 0, hdr_base]), json!(null));
+                return;
+            }
+            let ci = m.compression_info();
+            if ci.as_ref().map(|c| (c.total_compressed_size, c.file_count)) != (n > 0).then_some((total, n)) {
+                bad("compression_info", json!(format!("{ci:?}")), json!([total.to_string(), n]), json!(null));
+                return;
+            }
+            let pa = m.analyze_priorities();
+            let streamable: u64 = (0..n).filter(|&i| matches!(cat(eff(i)), PriorityCategory::Normal | PriorityCategory::Low)).map(|i| model.files[i].size).sum();
+            let mut pa_ok = pa.total_files == n && pa.total_size == total && pa.essential_size == ess && pa.streamable_size == streamable && pa.base_priority_adjustment == hdr_base;
+            for c in PriorityCategory::all_ordered() {
+                let idx: Vec<usize> = (0..n).filter(|&i| cat(eff(i)) == c).collect();
+                let (cnt, sz) = pa.categories.get(&c).map_or((0, 0), |s| (s.file_count, s.total_size));
+                pa_ok &= cnt == idx.len() && sz == size_sum(&idx);
+                if let (Some(s), false) = (pa.categories.get(&c), idx.is_empty()) {
+                    pa_ok &= s.max_file_size == idx.iter().map(|&i| model.files[i].size).max().unwrap_or(0) && s.min_file_size == idx.iter().map(|&i| model.files[i].size).min().unwrap_or(0);
+                }
+            }
+            if !saturates && n > 0 {
+                let lo = (0..n).map(eff).min().unwrap_or(0);
+                let hi = (0..n).map(eff).max().unwrap_or(0);
+                pa_ok &= i32::from(pa.priority_range.0) == lo && i32::from(pa.priority_range.1) == hi;
+            }
+            qcount += 1;
+            if !pa_ok {
+                bad("analyze_priorities", json!({"total_files": pa.total_files, "total_size": pa.total_size.to_string(), "essential_size": pa.essential_size.to_string(), "streamable_size": pa.streamable_size.to_string(), "range": [pa.priority_range.0, pa.priority_range.1]}), json!({"total_files": n, "total_size": total.to_string(), "essential_size": ess.to_string(), "streamable_size": streamable.to_string()}), json!({"base_priority": base, "version": v}));
+                return;
+            }
+            // per-entry priority predicates (critical < 0, essential <= 0, high <= 1) and the rank order
+            let mut prev: Option<(i32, u8)> = None;
+            let mut order: Vec<usize> = (0..n).collect();
+            order.sort_by_key(|&i| eff(i));
+            for &i in &order {
+                let e = &m.entries[i];
+                let (ec, ee, eh) = (e.is_critical(&m.header), e.is_essential(&m.header), e.is_high_priority(&m.header));
+                if ec != (eff(i) < 0) || ee != (eff(i) <= 0) || eh != (eff(i) <= 1) || e.priority_category(&m.header) != cat(eff(i)) {
+                    bad("entry.is_critical/is_essential/is_high_priority/priority_category", json!([ec, ee, eh]), json!([eff(i) < 0, eff(i) <= 0, eff(i) <= 1]), json!({"index": i, "priority": model.files[i].prio, "base_priority": base}));
+                    return;
+                }
+                let rank = e.download_rank(&m.header);
+                if let Some((pe, pr)) = prev {
+                    // a lower effective priority never ranks after a higher one (equal after clamping is fine)
+                    if !saturates && ((pe < eff(i)) != (pr < rank)) {
+                        bad("entry.download_rank", json!([pr, rank]), json!("rank order = effective priority order"), json!({"index": i, "effective": [pe, eff(i)]}));
+                        return;
+                    }
+                }
+                prev = Some((eff(i), rank));
+            }
+            qcount += n as u64;
+            // a category is its documented priority range
+            for c in PriorityCategory::all_ordered() {
+                let (lo, hi) = c.priority_range();
+                let a: Vec<usize> = m.entries_by_priority(c).into_iter().map(|(i, _)| i).collect();
+                let r: Vec<usize> = m.entries_by_priority_range(lo, hi).into_iter().map(|(i, _)| i).collect();
+                qcount += 1;
+                if a != r {
+                    bad("entries_by_priority-vs-entries_by_priority_range(priority_range)", json!(a), json!(r), json!({"category": format!("{c}")}));
+                    return;
+                }
+            }
+            // download plans: a priority ceiling and / or a category filter, ordered by (effective priority, position)
+            let all_cats = PriorityCategory::all_ordered();
+            let mut some_cats: Vec<PriorityCategory> = all_cats.iter().copied().filter(|_| rng.bool()).collect();
+            if some_cats.is_empty() {
+                some_cats.push(PriorityCategory::High);
+            }
+            let ceiling = rng.range(0, 253) as i32 - 127; // -127..=126: independent of how out-of-range values are clamped
+            let plans: Vec<(&str, DownloadPlan, Option<i32>, Option<&[PriorityCategory]>)> = vec![
+                ("DownloadPlan::create(all)", DownloadPlan::create(&m.entries, &m.header, None, None), None, None),
+                ("DownloadPlan::essential_only", DownloadPlan::essential_only(&m.entries, &m.header), Some(0), None),
+                ("DownloadPlan::critical_only", DownloadPlan::critical_only(&m.entries, &m.header), Some(-1), None),
+                ("DownloadPlan::by_categories", DownloadPlan::by_categories(&m.entries, &m.header, &some_cats), None, Some(&some_cats)),
+                ("DownloadPlan::create(ceiling+categories)", DownloadPlan::create(&m.entries, &m.header, Some(ceiling as i8), Some(&some_cats)), Some(ceiling), Some(&some_cats)),
+            ];
+            for (api, plan, max, cats) in &plans {
+                let mut want: Vec<usize> = (0..n).filter(|&i| max.is_none_or(|mx| eff(i) <= mx) && cats.is_none_or(|cs| cs.contains(&cat(eff(i))))).collect();
+                let mut got: Vec<usize> = plan.entries.iter().map(|e| e.0).collect();
+                if saturates {
+                    // two clamped values compare equal where the wide values differ: only the selected set is judged
+                    got.sort_unstable();
+                } else {
+                    want.sort_by_key(|&i| (eff(i), i));
+                }
+                let cats_ok = plan.entries.iter().all(|e| e.0 < n && e.1 == cat(eff(e.0)) && (saturates || i32::from(e.2) == eff(e.0)));
+                let ess_plan: u64 = want.iter().filter(|&&i| eff(i) <= 0).map(|&i| model.files[i].size).sum();
+                let mut breakdown_ok = true;
+                for c in &all_cats {
+                    let idx: Vec<usize> = want.iter().copied().filter(|&i| cat(eff(i)) == *c).collect();
+                    breakdown_ok &= plan.category_breakdown.get(c).copied().unwrap_or((0, 0)) == (idx.len(), size_sum(&idx));
+                }
+                qcount += 1;
+                rc.cnt.add("query.download_plans", 1);
+                if got != want || !cats_ok || plan.total_size != size_sum(&want) || plan.essential_size != ess_plan || !breakdown_ok {
+                    bad(api, json!({"entries": got, "total_size": plan.total_size.to_string(), "essential_size": plan.essential_size.to_string()}), json!({"entries": want, "total_size": size_sum(&want).to_string(), "essential_size": ess_plan.to_string()}), json!({"max_priority": max, "categories": cats.map(|c| c.iter().map(|x| format!("{x}")).collect::<Vec<_>>()), "base_priority": base, "version": v}));
+                    return;
+                }
+            }
         }
         P::S(m) => {
             if m.entries.len() != n || m.tags.len() != nt {
@@ -1263,10 +1892,15 @@ fn run_program(rc: &mut RunCtx, kind: Kind, steps: &[Step], rng: &mut Rng) {
 
 fn kind_for(slot: usize, rng: &mut Rng) -> Kind {
     match slot % 5 {
-        0 => Kind::Install,
+        0 => Kind::Install { v: if rng.chance(1, 3) { 2 } else { 1 } },
         1 => Kind::Download { v: 1, checksums: rng.bool(), flag_size: 0, base: 0 },
         2 => Kind::Download { v: 2, checksums: rng.bool(), flag_size: rng.below(5) as u8, base: 0 },
-        3 => Kind::Download { v: 3, checksums: rng.bool(), flag_size: rng.below(5) as u8, base: gen_prio(rng) },
+        3 => match rng.below(8) {
+            // the parameter pairs of the essential_content / streaming_optimized presets
+            0 => Kind::Download { v: 3, checksums: rng.bool(), flag_size: 0, base: -10 },
+            1 => Kind::Download { v: 3, checksums: rng.bool(), flag_size: 1, base: -5 },
+            _ => Kind::Download { v: 3, checksums: rng.bool(), flag_size: rng.below(5) as u8, base: gen_prio(rng) },
+        },
         _ => {
             if rng.bool() {
                 Kind::Size { v: 2, ekey_size: *rng.pick(&[9u8, 16, 1]), esize_bytes: 4 }
@@ -1309,7 +1943,7 @@ fn python_check(ctx: &Ctx, path: &std::path::Path) -> u64 {
 fn main() {
     let ctx = Ctx::init("C19", "exploration");
     ctx.set_rule(
-        "one case = one builder program (5..=120 random steps over add tag / add file / associate (4 API variants) / dissociate / remove file (by index or key) / remove tag / update size+priority / deliberately invalid steps, then fix-up steps to an exact final file count and tag count, then a pattern that tags the last file) run against InstallManifestBuilder, DownloadManifestBuilder v1/v2/v3 (checksums, flag sizes 0..4, base priority over i8) or SizeManifestBuilder v1/v2, followed by build -> serialise -> parse and comparison of every tag, every tag pair and 30 random tag subsets (all-of, any-of, platform pairs, priority categories and ranges, size totals) with a set model tag -> set<file id>, and by an independent MSB-first decode of the serialised bytes (Rust here, Python over the event log). The sweep gives every final file count 0..=70 x every manifest kind (5) x at least two tag counts, then random larger counts; tag counts 0..=20. non-trivial = final file count not a multiple of 8 or the program contains a removal; distinct = hash of (kind, serialised bytes).",
+        "one case = one builder program (5..=120 random steps over add tag / add file / associate (4 API variants) / dissociate / remove file (by index or key) / remove tag / update size+priority (setters or get_file_mut) / add file with tags in one call / re-key a file / clear / reload (build -> serialise -> parse -> Builder::from_manifest, the program continues on the rebuilt builder) / deliberately invalid steps, then fix-up steps to an exact final file count and tag count, then a pattern that tags the last file) run against InstallManifestBuilder (V1, and V2 = the built manifest given the V2 header and file-type bytes), DownloadManifestBuilder v1/v2/v3 (new() or the preset constructors) (checksums, flag sizes 0..4, base priority over i8) or SizeManifestBuilder v1/v2, followed by build -> serialise -> parse and comparison of every tag, every tag pair and 30 random tag subsets (all-of, any-of, platform pairs, priority categories and ranges, size totals) with a set model tag -> set<file id>, the builder's own state queries before the build, tag mask algebra (intersect / union / positions beyond the mask), tag-level platform / locale / name filters, batch tag analysis vs single predicates, statistics that are counts or size totals, priority analysis and download plans (ceiling and category filters, order, totals, breakdown), selections by extension, and by an independent MSB-first decode of the serialised bytes (Rust here, Python over the event log); every third program goes through the CascFormat trait entry points. The sweep gives every final file count 0..=70 x every manifest kind (5) x at least two tag counts, then random larger counts; tag counts 0..=20. non-trivial = final file count not a multiple of 8 or the program contains a removal; distinct = hash of (kind, serialised bytes).",
     );
     ctx.assume("the set model in the harness (file ids, positions shift down on removal) is the meaning of 'the files that were associated'");
     ctx.assume("the byte layouts used by the independent readers come from the format descriptions in the module docs (header fields, entry fields, tag = cstring + u16 BE type + ceil(n/8) mask bytes)");
@@ -1457,7 +2091,7 @@ fn main() {
         ctx.inconclusive(&format!("tag counts never reached: {missing_t:?}"));
     }
     ctx.set_extra("sweep_coverage", Value::Object(cov_json));
-    for k in ["step.remove_file", "step.remove_tag", "step.dissociate", "programs.with_file_size=2^40-1", "programs.download_with_priority_-128_and_127", "programs.file_count>70", "query.entries_for_platform", "independent_reader.manifests_decoded"] {
+    for k in ["step.reload(from_manifest)", "step.add_file_with_tags", "step.update_file_key", "step.clear", "query.download_plans", "programs.install-v2", "programs.through_CascFormat_build+parse", "builder_state.download_probes", "builder_state.install_probes", "install.extension_queries", "builder.download_preset_constructors", "step.remove_file", "step.remove_tag", "step.dissociate", "programs.with_file_size=2^40-1", "programs.download_with_priority_-128_and_127", "programs.file_count>70", "query.entries_for_platform", "independent_reader.manifests_decoded"] {
         if ctx.get_obs(k) == 0 {
             ctx.inconclusive(&format!("situation never reached: {k}"));
         }
